@@ -620,8 +620,13 @@ func (w *WAL) maybeSync() error {
 	}
 
 	if needSync {
-		// Use syncLocked since we're already holding the mutex
-		if err := w.syncLocked(); err != nil {
+		// The record of the append in progress is already in the buffer: the
+		// append passed the status check while holding the mutex, and a
+		// rotation flagged since then (SetRotating does not take the mutex)
+		// must not turn it into a reported failure. Checking the status again
+		// here made the caller retry (the entry was written twice) or give up
+		// (the entry was written although the write reported an error).
+		if err := w.flushAndSyncLocked(); err != nil {
 			return err
 		}
 	}
@@ -638,6 +643,12 @@ func (w *WAL) syncLocked() error {
 		return ErrWALRotating
 	}
 
+	return w.flushAndSyncLocked()
+}
+
+// flushAndSyncLocked writes the buffer to the file and syncs it, assuming the
+// mutex is already held and the caller decided that the WAL may be written
+func (w *WAL) flushAndSyncLocked() error {
 	if err := w.writer.Flush(); err != nil {
 		return fmt.Errorf("failed to flush WAL buffer: %w", err)
 	}
